@@ -176,14 +176,10 @@ class SolverCrash(Exception):
 
 def build(inst, settings, presolve_log=None):
     """construct the real constraint; returns Built with .con, .user (Variable or None), .X.
-    With presolve_trivial_age_cones the constructor itself runs ECOS (in-process) on small problems; ECOS can crash on degenerate
-    data, so the construction is first tried in a forked child and skipped (SolverCrash) when the child dies."""
-    import sageopt.coniclifts.constraints.set_membership.sage_cones as _sc
-    if settings.get('presolve_trivial_age_cones', _sc.SETTINGS['presolve_trivial_age_cones']):
-        import common
-        kind, _ = common.forked(lambda: (_build(inst, settings, None), None)[1], timeout=120)
-        if kind in ('crash', 'timeout'):
-            raise SolverCrash('the presolve\'s solver %s' % kind)
+    With presolve_trivial_age_cones the constructor itself runs ECOS on small problems; ECOS can crash the process on degenerate
+    data (not reproducibly: a probe of the same construction in a forked child can survive where the parent dies), so every solve
+    the presolve makes runs in a forked child that hands back the status and the value, which is all the presolve reads;
+    SolverCrash when that child dies."""
     return _build(inst, settings, presolve_log)
 
 
@@ -220,7 +216,22 @@ def _build(inst, settings, presolve_log=None):
 
     def wrap(fn):
         def inner(self, i, covers, *a, **k):
-            fn(self, i, covers, *a, **k)
+            import common
+            orig_solve = sc.Problem.solve
+
+            def safe_solve(prob, *sa, **sk):
+                kind, res = common.forked(lambda: (orig_solve(prob, *sa, **sk), (prob.status, prob.value))[1], timeout=120)
+                if kind in ('crash', 'timeout'):
+                    raise SolverCrash('the presolve\'s solver %s' % kind)
+                if kind == 'exception':
+                    raise RuntimeError(res)
+                prob.status, prob.value = res
+                return res
+            sc.Problem.solve = safe_solve
+            try:
+                fn(self, i, covers, *a, **k)
+            finally:
+                sc.Problem.solve = orig_solve
             log.append(not bool(np.any(covers[i])))
         return inner
     sc.ExpCoverHelper._presolve_trivial_ord_age = wrap(orig_o)
